@@ -1127,7 +1127,112 @@ func cmdViews(args []string) int {
 			report(r, variant, err)
 		}
 	})
-	return finishDocs(*prop, st, *out, *replayDir, map[string]any{"tlc_records": len(recs), "family": *family, "wall_s": time.Since(start).Seconds()})
+	fixed := 0
+	if *family == "agg" && st.nviol() == 0 {
+		n, err := aggFixed()
+		fixed = n
+		st.evals += int64(n)
+		if err != nil {
+			sig := err.Error()
+			if len(sig) > 80 {
+				sig = sig[:80]
+			}
+			st.fail(&docViolation{Property: *prop, Message: err.Error(), Sig: "agg-fixed: " + sig, Check: "views:agg-fixed", Input: "fixed lists (overflowing products, very long lists)", Seed: *seed})
+		}
+	}
+	return finishDocs(*prop, st, *out, *replayDir, map[string]any{"tlc_records": len(recs), "family": *family, "fixed_lists": fixed, "wall_s": time.Since(start).Seconds()})
+}
+
+// aggFixed: lists the enumeration cannot hold. (1) Products that overflow float64 although every element is finite: the
+// sign of the infinity is the sign of the product whatever the fold order. (2) Lists of 2^14+3 … 2^18+1 elements (ints with
+// other kinds interleaved) against plain loops, many times over (an implementation that splits the work must still add up).
+func aggFixed() (int, error) {
+	n := 0
+	for _, c := range []struct {
+		vals []any
+		want float64
+	}{
+		{[]any{1e200, 1e200, -2.0}, math.Inf(-1)}, {[]any{1e200, 1e200, -1.0, -1.0}, math.Inf(1)}, {[]any{-1e200, 1e200, 1e200}, math.Inf(-1)},
+		{[]any{math.MaxInt, math.MaxInt, math.MaxInt, math.MaxInt, math.MaxInt, math.MaxInt, math.MaxInt, math.MaxInt, math.MaxInt, math.MaxInt, math.MaxInt, math.MaxInt,
+			math.MaxInt, math.MaxInt, math.MaxInt, math.MaxInt, math.MaxInt, -1}, math.Inf(-1)},
+		{[]any{1e308, 10.0, 10.0, -3, -5.0}, math.Inf(1)}, {[]any{2.0, 1e308, 1e308, -1}, math.Inf(-1)},
+	} {
+		n++
+		if got := at.NewList(c.vals...).Prod(); got != c.want {
+			return n, fmt.Errorf("Prod of %v = %v, the product of the elements is %v", c.vals, got, c.want)
+		}
+	}
+	for _, size := range []int{1<<14 + 3, 1<<16 + 1, 1<<18 + 1} {
+		l := at.NewList()
+		sum, prod, mn, mx, seen := 0, 1, 0, 0, false
+		fsum := 0.0
+		nums := at.NewList()
+		for i := 0; i < size; i++ {
+			v := (i*7919)%201 - 100
+			l.Add(v)
+			nums.Add(v % 3)
+			fsum += float64(v % 3)
+			sum += v
+			if v%50 == 1 || v == -1 {
+				prod *= v
+			}
+			if !seen || v < mn {
+				mn = v
+			}
+			if !seen || v > mx {
+				mx = v
+			}
+			seen = true
+			switch i % 5 {
+			case 1:
+				l.Add("x")
+			case 3:
+				l.Add(2.5, nil)
+			}
+		}
+		reps := 300
+		if size > 1<<17 {
+			reps = 120
+		}
+		for r := 0; r < reps; r++ {
+			n++
+			if got := l.IntSum(); got != sum {
+				return n, fmt.Errorf("IntSum of a list with %d ints (other kinds interleaved) = %d, the sum is %d (call %d of %d on the same unchanged list)", size, got, sum, r+1, reps)
+			}
+			if r%10 == 0 {
+				if got := l.IntMin(); got != mn {
+					return n, fmt.Errorf("IntMin of a list with %d ints = %d, want %d", size, got, mn)
+				}
+				if got := l.IntMax(); got != mx {
+					return n, fmt.Errorf("IntMax of a list with %d ints = %d, want %d", size, got, mx)
+				}
+				if got := nums.Sum(); got != fsum {
+					return n, fmt.Errorf("Sum of %d small ints = %v, want %v", size, got, fsum)
+				}
+			}
+		}
+		// IntProd: mostly ones, a few other factors (wrap-around arithmetic is the same in any order)
+		pl := at.NewList()
+		want := 1
+		for i := 0; i < size; i++ {
+			f := 1
+			if i%997 == 0 {
+				f = 3
+			} else if i%4099 == 0 {
+				f = -1
+			}
+			pl.Add(f)
+			want *= f
+		}
+		for r := 0; r < 40; r++ {
+			n++
+			if got := pl.IntProd(); got != want {
+				return n, fmt.Errorf("IntProd of a list with %d ints = %d, the product is %d (call %d)", size, got, want, r+1)
+			}
+		}
+		_ = prod
+	}
+	return n, nil
 }
 
 func min(a, b int) int {
@@ -1334,14 +1439,23 @@ func viewEvent(toks []vtok, sortMode string) (rec map[string]any, note string) {
 	}
 	agg := map[string]any{"isum": l.IntSum(), "imin": l.IntMin(), "imax": l.IntMax(), "sum4": 0, "min4": 0, "max4": 0}
 	if l.AllNumeric() {
-		agg["sum4"] = int(l.Sum() * 4)
-		agg["min4"] = int(l.Min() * 4)
-		agg["max4"] = int(l.Max() * 4)
-		if l.Sum()*4 != float64(int(l.Sum()*4)) {
-			agg["sum4"] = -999999
-		}
-		if n := l.Count(); n > 0 && l.Avg() != l.Sum()/float64(n) {
-			agg["sum4"] = -999998
+		// AllNumeric says the float aggregates are defined: a panic of theirs is the library contradicting itself
+		if p := func() (p any) {
+			defer func() { p = recover() }()
+			agg["sum4"] = int(l.Sum() * 4)
+			agg["min4"] = int(l.Min() * 4)
+			agg["max4"] = int(l.Max() * 4)
+			if l.Sum()*4 != float64(int(l.Sum()*4)) {
+				agg["sum4"] = -999999
+			}
+			if n := l.Count(); n > 0 && l.Avg() != l.Sum()/float64(n) {
+				agg["sum4"] = -999998
+			}
+			return nil
+		}(); p != nil {
+			note += fmt.Sprintf("AllNumeric() is true but a float aggregate panicked (%v); ", p)
+			agg["sum4"] = -999997
+			all = append(all, "numeric-but-aggregates-panic")
 		}
 	}
 	if !eqAny(listContent(l), vals) {
@@ -1424,7 +1538,7 @@ func cmdViewTrace(args []string) int {
 	mixed := []vtok{{"nil", 0}, {"bool", 1}, {"int", 1}, {"int", 2}, {"float", 2}, {"str", 1}, {"O", 1}, {"O", 2}, {"L", 1}}
 	ints := []vtok{{"int", -2}, {"int", -1}, {"int", 0}, {"int", 1}, {"int", 2}, {"int", 3}}
 	flts := []vtok{{"float", -6}, {"float", -1}, {"float", 0}, {"float", 2}, {"float", 5}}
-	strs := []vtok{{"str", 1}, {"str", 2}, {"str", 3}, {"str", 4}}
+	strs := []vtok{{"str", 0}, {"str", 1}, {"str", 2}, {"str", 3}, {"str", 4}, {"str", 5}, {"str", 6}} // "" A a ab b ž 😀 (bytewise order)
 	nums := append(append([]vtok{}, ints...), flts...)
 	pick := func(alpha []vtok, n int) []vtok {
 		out := make([]vtok, n)
